@@ -98,6 +98,16 @@ CLAIMED = {
   "Trusted: Lean kernel + standard axioms; translator (v1 tables, pep440 map from the AST); regex fragment (the empty-iteration nuance of mRep is documented); rough-edge parts are known findings F-C20-dom-short/-doy-short/-padded-bid/-week-parts/-dispatch.",
   "Lean 4 proof per part and on the version record over regenerated tables + correspondence + chain oracle",
   "DESIGN.md section 7, C20"),
+ "C18": (
+  "Lean 4 theorems C18_* about the executable model of config.py's post-parser logic: for EVERY expressible abstract configuration the INI path (parseCfgPost on the raw dict configparser yields, [bumpver] or legacy [pycalver]) and the TOML path (parseTomlPost, [tool.bumpver] / [bumpver] / [pycalver]) give the SAME effective settings under the same environment (C18_equiv, C18_sections); tag/push require commit (C18_requires_commit); the config file is always among the files with its own current_version line pattern (C18_self_pattern); every generated true spelling in any case is True, everything else False (C18_bool_spellings); negative witness for quoted booleans. PARTIAL: configparser and toml are parameters — on every generated configuration the check verifies that the real parsers return exactly the raw dicts the theorem assumes (op abs_raw), compares the real readers with the model, and runs `config.init` / `bumpver show` on sibling projects in every format.",
+  "Trusted: Lean kernel + standard axioms; translator (bool spellings and defaults read from the Python AST); configparser/toml assumed (checked per instance); toml 0.10 mis-reads some valid TOML (generator skips those encodings). Quoted booleans: known finding F-C18-quoted-bool.",
+  "Lean 4 proof (reader equivalence on an abstract configuration) + per-instance check of the parser assumption + sibling-project oracle",
+  "DESIGN.md section 7, C18"),
+ "C19": (
+  "Lean 4 theorems C19_* about `init` for ALL worlds (functions from file names to {absent, empty, unrelated, has-section}, not the 2^8 samples): a file that already holds a section is always preferred (C19_prefers_section), otherwise the first existing candidate in the GENERATED order, else bumpver.toml (C19_pick_order/_first/_candidates); the write is an append with the old content as prefix and no other file touched (C19_prefix); --dry and a refusal write nothing; the default text is well formed for every world (one section header of the right dialect, current_version = <year>.1001-alpha, a file_patterns entry for the config file: C19_text_wellformed, C19_initial_version); a second init re-picks the same file and refuses when it parses (C19_second_refuses). PARTIAL: that configparser/toml accept old ++ appended text is a parameter, validated by running init / show / init --dry / second init on every world (quick: sample; thorough: all 8,192 worlds x content kinds).",
+  "Trusted: Lean kernel + standard axioms; translator (candidate list and template constants from the AST/module); parsers assumed (validated over the whole world space).",
+  "Lean 4 proof over all worlds + exhaustive world enumeration against the real CLI",
+  "DESIGN.md section 7, C19"),
 }
 
 PENDING_REASON = "not yet covered: model/theorems for this property are still being built (see DESIGN.md section 10 for the order of work); no check is claimed until its theorems are proved and tied to the code"
